@@ -5,7 +5,8 @@ CFG = {
     "check_vo": "theories/Check/C06.vo", "prop_vo": "theories/Properties/C06.vo",
     "prop_file": "theories/Properties/C06.v",
     "theory_files": ["theories/Base/Bytes.v", "theories/Base/BytesProofs.v", "theories/Formats/Gltf.v",
-                     "theories/Formats/GltfProofs.v", "theories/Formats/GltfGlbProofs.v"],
+                     "theories/Formats/GltfProofs.v", "theories/Formats/GltfExtProofs.v",
+                     "theories/Formats/GltfGlbProofs.v"],
     "level_text": "Coq theorems about a state-machine model of the glTF writer (WriteVector2/3/4, WriteIndices, AddTexture, "
                   "AddMaterial, AddMesh, AddScene, AddLight, ToGLTF, WriteGLB): for every scene the buffer views tile the "
                   "buffer, every accessor fits its view and decodes to the model's float32/byte/index image, index width and "
